@@ -290,3 +290,30 @@ def write_json(path, obj):
 
 def eprint(*a):
     print(*a, file=sys.stderr)
+
+
+# ----------------------------------------------------------------------------
+# (added by the masks/staging/difftrees engines) worker pools for JAX replay
+# ----------------------------------------------------------------------------
+
+def _pin_worker():
+    """Pool initializer: pin the worker to one CPU and keep XLA single-threaded, *before* jax is imported
+    in the worker (thread pools are sized from the affinity mask), so that 16 workers do not run 16x16
+    spinning threads."""
+    import multiprocessing as _mp
+    os.environ.setdefault("XLA_FLAGS", "--xla_cpu_multi_thread_eigen=false intra_op_parallelism_threads=1")
+    os.environ.setdefault("OMP_NUM_THREADS", "1")
+    os.environ.setdefault("OPENBLAS_NUM_THREADS", "1")
+    try:
+        cpus = sorted(os.sched_getaffinity(0))
+        ident = _mp.current_process()._identity
+        i = (ident[0] - 1) if ident else 0
+        os.sched_setaffinity(0, {cpus[i % len(cpus)]})
+    except Exception:
+        pass
+
+
+def pinned_pool(n: int | None = None):
+    """multiprocessing Pool (spawn) whose workers are pinned to one CPU each (see _pin_worker)."""
+    import multiprocessing as _mp
+    return _mp.get_context("spawn").Pool(n or NCPU, initializer=_pin_worker)
